@@ -242,11 +242,61 @@ type rawConn struct {
 	done chan struct{}
 }
 
+// keyedScript: in concurrent scenarios the backend tells its clients apart by what they
+// send: once a connection has received exactly Expect it answers with Reply.
+type keyedScript struct {
+	Expect []byte
+	Reply  [][]byte
+}
+
 type rawBackend struct {
 	mu     sync.Mutex
 	ln     net.Listener
 	conns  []*rawConn
 	script rawScript
+	keyed  []keyedScript // non-nil: concurrent mode
+}
+
+var keyedDefaultReply = []byte{0, 7, 'u', 'n', 'k', 'n', 'o', 'w', 'n'} // a framed "unknown"
+
+// serveKeyed reads until what arrived equals one script's Expect (answer with its Reply), or
+// can no longer become any script's Expect (answer "unknown"), or nothing more comes.
+func (b *rawBackend) serveKeyed(c net.Conn, rc *rawConn, scripts []keyedScript) {
+	buf := make([]byte, 65536)
+	for {
+		b.mu.Lock()
+		got := append([]byte(nil), rc.got...)
+		b.mu.Unlock()
+		viable := false
+		for _, sc := range scripts {
+			if bytes.Equal(got, sc.Expect) {
+				for _, w := range sc.Reply {
+					c.Write(w)
+					time.Sleep(300 * time.Microsecond)
+				}
+				return
+			}
+			if len(got) < len(sc.Expect) && bytes.Equal(got, sc.Expect[:len(got)]) {
+				viable = true
+			}
+		}
+		if !viable {
+			// if it is a complete length-framed message nobody asked for, say so (the proxy waits
+			// for an answer without any deadline on this leg)
+			if len(got) >= 2 && len(got)-2 >= int(got[0])<<8|int(got[1]) {
+				c.Write(keyedDefaultReply)
+				return
+			}
+		}
+		c.SetReadDeadline(time.Now().Add(2 * time.Second))
+		n, err := c.Read(buf)
+		b.mu.Lock()
+		rc.got = append(rc.got, buf[:n]...)
+		b.mu.Unlock()
+		if err != nil {
+			return
+		}
+	}
 }
 
 func newRawBackend(addr string) (*rawBackend, error) {
@@ -265,10 +315,15 @@ func newRawBackend(addr string) (*rawBackend, error) {
 			b.mu.Lock()
 			b.conns = append(b.conns, rc)
 			sc := b.script
+			keyed := b.keyed
 			b.mu.Unlock()
 			go func() {
 				defer close(rc.done)
 				defer c.Close()
+				if keyed != nil {
+					b.serveKeyed(c, rc, keyed)
+					return
+				}
 				buf := make([]byte, 65536)
 				for len(rc.got) < sc.Want {
 					c.SetReadDeadline(time.Now().Add(3 * time.Second))
